@@ -17,6 +17,8 @@ def case_strategy(mode):
 
     @st.composite
     def build(draw):
+        if mode == "dsif":
+            return draw(gen.dsif_case())
         if mode == "dataset":
             ci = draw(gen.case_inputs())
             ir = draw(gen.ds_expr(ci, draw(st.integers(1, 3))))
@@ -80,6 +82,16 @@ def probe_known():
     part.case("probe:rename_nested", True, labels=["known_finding_probe"])
     if key:
         part.fail(key, dict(inputs=ci, script=facts["script"], ir=repr(ir)), what)
+    # bare boolean dataset as if-condition
+    b = {"Id_1": ("I", "Integer"), "Me_1": ("M", "Boolean")}
+    nn = {"Id_1": ("I", "Integer"), "Me_1": ("M", "Number")}
+    ci = dict(structs={"DS_1": b, "DS_2": nn, "DS_3": nn}, family="num", rows={"DS_1": [{"Id_1": "1", "Me_1": "true"}, {"Id_1": "2", "Me_1": None}],
+              "DS_2": [{"Id_1": "1", "Me_1": "10"}, {"Id_1": "2", "Me_1": "20"}], "DS_3": [{"Id_1": "1", "Me_1": "-1"}, {"Id_1": "2", "Me_1": "-2"}]})
+    ir = ("dsif", ("ds", "DS_1"), ("ds", "DS_2"), ("ds", "DS_3"), "bare")
+    key, what, facts = diffrun.run_case(ci, ir)
+    part.case("probe:dsif_bare", True, labels=["known_finding_probe"])
+    if key:
+        part.fail("dsif_bare_condition:" + key.split(":")[0] + ":" + key.split(":")[1], dict(inputs=ci, script=facts["script"], ir=repr(ir)), what)
     return part
 
 
@@ -88,7 +100,8 @@ def run(ctx, modes=("dataset", "component"), pid="C01"):
                 "dataset-level operator trees of depth <=3 and component-level typed expressions of depth <=3 inside calc; oracle = independent reference interpreter refvtl; "
                 "non-trivial = at least one operator and (a null operand, or partial key overlap between operands, or an expected runtime error); distinct by (inputs, script)")
     n = 60 if ctx.quick else 2500
-    jobs = [(ctx.seed * 1009 + k, n, modes[k % len(modes)], pid) for k in range(16)]
+    allmodes = list(modes) * 3 + ["dsif"] if pid == "C01" else list(modes)
+    jobs = [(ctx.seed * 1009 + k, n, allmodes[k % len(allmodes)], pid) for k in range(16)]
     ctx.merge(core.pmap("checks.c01", "work", jobs, procs=16))
     ctx.merge([probe_known()])
     ctx.part.excluded["rename_nested (comparison/isnull/ceil/floor/trunc combined with another dataset-level operator)"] += 1
